@@ -37,7 +37,7 @@ ROLES = h.RoleSet.from_enum(_R)
 ROLE = {"HOST": ROLES.HOST, "DEVICE": ROLES.DEVICE, None: None}
 # the same roles as other objects (the enum converted a second time; stand-alone Roles): roles are what they are called
 ROLES2 = h.RoleSet.from_enum(_R)
-IROLE = {"same": ROLE, "again": {"HOST": ROLES2.HOST, "DEVICE": ROLES2.DEVICE, None: None},
+IROLE = {"listed": "listed", "same": ROLE, "again": {"HOST": ROLES2.HOST, "DEVICE": ROLES2.DEVICE, None: None},
          "alone": {"HOST": h.Role(name="HOST"), "DEVICE": h.Role(name="DEVICE"), None: None}}
 
 
@@ -71,7 +71,27 @@ def mk_inst(B, flip, via, **kw):
     return B(flipped=flip, **kw)
 
 
+def build_bundle_listed(tree, name, counter):
+    """The same definition written the other documented way: a class body under `@h.bundle` whose roles are made without names
+    (`HOST, DEVICE = h.Roles(2)`, or `2 * h.Role()`) and are called what the class body calls them. Every definition has its own."""
+    n = next(counter)
+    HOST, DEVICE = h.Roles(2) if n % 2 else 2 * h.Role()
+    R = {"HOST": HOST, "DEVICE": DEVICE, None: None}
+    attrs = {"HOST": HOST, "DEVICE": DEVICE}
+    for s in tree["sigs"]:
+        k, w = s["kind"], s["w"]
+        mk = {"input": h.Input, "output": h.Output, "inout": h.Inout, "port": h.Port}.get(k)
+        attrs[s["n"]] = mk(width=w) if mk else h.Signal(width=w, src=R[s["src"]], dest=R[s["dest"]])
+    for sub in tree["subs"]:
+        sb = build_bundle_listed(sub["of"], name + "_" + sub["n"], counter)
+        role = sb.roles[sub["role"]] if sub["role"] else None
+        attrs[sub["n"]] = mk_inst(sb, sub["flip"], sub.get("via"), role=role, port=bool(sub.get("port")))
+    return h.bundle(type(f"{name}{n}", (), attrs))
+
+
 def build_bundle(tree, name, counter, irole=None):
+    if irole == "listed":
+        return build_bundle_listed(tree, name, counter)
     irole = irole or ROLE
     b = h.Bundle(name=f"{name}{next(counter)}")
     b.roles = ROLES
@@ -102,6 +122,8 @@ DIRS = {0: "input", 1: "output", 2: "inout", 3: "none"}
 def build_inner(case, B):
     inner = h.Module(name="Inner")
     irole = IROLE[case.get("role_objs", "same")]
+    if irole == "listed":
+        irole = {"HOST": B.roles["HOST"], "DEVICE": B.roles["DEVICE"], None: None}
     # port-ness as a boolean, or as the `Visibility` the README offers as the other spelling (INTERNAL is no port)
     as_enum = case.get("port_as") == "enum"
     inner.p = mk_inst(B, case["flip"], case.get("via"), port=(h.Visibility.PORT if as_enum else True), role=irole[case["role"]])
@@ -283,9 +305,13 @@ def exhaustive_small():
                     for d in range(depth):
                         t = {"sigs": [], "subs": [{"n": f"l{d}", "flip": flips[d + 1], "via": VIAS[flips[d + 1]][(k + d) % 3], "role": roles[d + 1], "of": t,
                                                    "port": (sum(flips) + d) % 2 == 1}]}
-                    yield {"tree": t, "flip": flips[0], "via": VIAS[flips[0]][(k + depth + 1) % 3], "role": roles[0],
-                           "role_objs": ("same", "again", "alone")[(len(kind) + depth + sum(flips)) % 3],
-                           "port_as": ("bool", "enum")[(k + len(kind)) % 2]}
+                    case = {"tree": t, "flip": flips[0], "via": VIAS[flips[0]][(k + depth + 1) % 3], "role": roles[0],
+                            "role_objs": ("same", "again", "alone")[(len(kind) + depth + sum(flips)) % 3],
+                            "port_as": ("bool", "enum")[(k + len(kind)) % 2]}
+                    yield case
+                    if kind.startswith("role") and any(roles):
+                        # ... and with every definition's roles made nameless in a class body (`HOST, DEVICE = h.Roles(2)`)
+                        yield dict(case, role_objs="listed")
 
 
 def run(ctx):
@@ -303,6 +329,8 @@ def run(ctx):
                       "role_objs": rng.choice(["same", "same", "again", "alone"])})
         cases[-1]["via"] = rng.choice(VIAS[cases[-1]["flip"]])
         cases[-1]["port_as"] = rng.choice(["bool", "bool", "enum"])
+        if k % 5 == 4:
+            cases[-1]["role_objs"] = "listed"
     cases = [c for c in cases if leafcount(c["tree"]) > 0]
     S.run(ctx, cases)
 
